@@ -67,6 +67,17 @@ def observe(data: bytes, html: bool, dup: bool, want=None):
         if "images" in W: out["images"] = guard(lambda: [[k, token(v)] for k, v in d.images.items()])
         if "core" in W: out["core"] = guard(lambda: [[k, v] for k, v in d.core_properties.items()])
         if "files" in W: out["files"] = guard(lambda: [[f.path, f.Type, f.Id, f.Target] for f in rd.files])
+        # the same reads once more on the same object (C14: a read is not changed by earlier reads)
+        again = {}
+        if "comments" in W: again["comments"] = guard(lambda: [list(c) for c in d.comments])
+        if "text" in W: again["text"] = guard(lambda: d.text)
+        if "core" in W: again["core"] = guard(lambda: [[k, v] for k, v in d.core_properties.items()])
+        if "images" in W: again["images"] = guard(lambda: [[k, token(v)] for k, v in d.images.items()])
+        for part in ["header", "body", "document"]:
+            if "plain" in W: again[part] = guard(lambda: nest(getattr(d, part), strleaf))
+            if "runs" in W: again[part + "_runs"] = guard(lambda: nest(getattr(d, part + "_runs"), strleaf))
+        changed = sorted(k for k, v in again.items() if v != out.get(k))
+        if changed: out["<reread>"] = {"attributes": changed, "first": str(out.get(changed[0]))[:300], "second": str(again[changed[0]])[:300]}
         try: d.close()
         except Exception: pass
     return out
